@@ -44,8 +44,8 @@ CLAIMED = {
   design="DESIGN.md §2 C16"),
  "C15": dict(
   level="other",
-  technique="static analysis: bit-provenance abstract interpretation of setupBlockHeader/unpackBlockHeader, go/types walk of the block structs (type-shape), SSA dominator conditions of the block type switch, numeric abstract interpretation of the block split",
-  text="Decides structural clauses of the XR block codec for all values: BT - each setupBlockHeader stores the registered RFC 3611 block type; DSP - the reader's type switch maps exactly the registered constants to their Go types and everything else to UnknownReportBlock; TS - the type-specific octet written equals the RFC 3611 table (T in the low 4 bits, L/D/J and 2-bit ToH, reserved zero) and unpackBlockHeader inverts it bit for bit; LAY - the octet widths of each block struct in declaration order equal the RFC layout; BL - blocks are split at exactly 4*(BlockLength+1) (integer identity, no uint16 wrap) and setupBlockHeader stores BlockLength = wireSize/4-1; UNK - UnknownReportBlock passes type and type-specific octet through and its wire form is header + raw octets. It does not execute any block sequence: 'decode in order and independently' is argued from the split identity plus C01's bounds on the reflective reader.",
+  technique="static analysis: bit-provenance abstract interpretation of setupBlockHeader/unpackBlockHeader, go/types walk of the block structs (type-shape), SSA dominator conditions of the block type switch, numeric abstract interpretation of the block split, retention (who-may-alias) facts of the effect analysis",
+  text="Decides structural clauses of the XR block codec for all values: BT - each setupBlockHeader stores the registered RFC 3611 block type; DSP - the reader's type switch maps exactly the registered constants to their Go types and everything else to UnknownReportBlock; TS - the type-specific octet written equals the RFC 3611 table (T in the low 4 bits, L/D/J and 2-bit ToH, reserved zero) and unpackBlockHeader inverts it bit for bit; LAY - the octet widths of each block struct in declaration order equal the RFC layout; BL - blocks are split at exactly 4*(BlockLength+1) (integer identity, no uint16 wrap) and setupBlockHeader stores BlockLength = wireSize/4-1; UNK - UnknownReportBlock passes type and type-specific octet through and its wire form is header + raw octets; OWN - after ExtendedReport.Unmarshal no memory of the report refers to the input slice (retention facts of the effect analysis, reflect.Value.Set/SetBytes included), so preserved content cannot change when the caller reuses its buffer. It does not execute any block sequence: 'decode in order and independently' is argued from the split identity plus C01's bounds on the reflective reader.",
   note="Trusted: go/ssa, go/types, checker/bits, checker/num, the declaration-order walk of the reflective codec (guarded by C01 B-RFL/T-REC), RFC 3611 tables in props/c15.go. Assumes aligned blocks (findings F14a-c).",
   design="DESIGN.md §2 C15"),
  "C03": dict(
@@ -86,8 +86,8 @@ CLAIMED = {
   design="DESIGN.md §2 C08"),
  "C18": dict(
   level="other",
-  technique="static analysis: flow-insensitive alias/effect (write-set) analysis over go/ssa with summaries over the VTA call graph",
-  text="Decides the structural content of the property for all schedules and call histories at once: (GLOB) no function but the package initialiser writes package-level state, no goroutines/channels/sync/time/rand/os/map-iteration, unsafe only at the reflect.NewAt site; (RECV) every Marshal/MarshalSize/MarshalTo/DestinationSSRC/String/Header/Len/Validate/CNAME/Range/PacketList/... method has an empty write set w.r.t. its receiver, with ExtendedReport.Marshal verified to write only XRHeader.{BlockType,TypeSpecific,BlockLength} through setupBlockHeader; (INPUT) all 24 decode entry points have an empty write set w.r.t. their input slice; (FRESH) Marshal results are fresh allocations (RawPacket: the receiver). A positive-control fixture must make every rule fire on every run. Not a race-detector run: nothing is executed.",
+  technique="static analysis: flow-insensitive alias/effect (write-set and retention) analysis over go/ssa with summaries over the VTA call graph",
+  text="Decides the structural content of the property for all schedules and call histories at once: (GLOB) no function but the package initialiser writes package-level state, no goroutines/channels/sync/time/rand/os/map-iteration, unsafe only at the reflect.NewAt site; (RECV) every Marshal/MarshalSize/MarshalTo/DestinationSSRC/String/Header/Len/Validate/CNAME/Range/PacketList/... method has an empty write set w.r.t. its receiver, with ExtendedReport.Marshal verified to write only XRHeader.{BlockType,TypeSpecific,BlockLength} through setupBlockHeader; (INPUT) all 24 decode entry points have an empty write set w.r.t. their input slice; (FRESH) Marshal results are fresh allocations (RawPacket: the receiver); (RETAIN) after each of the 24 decoders its receiver refers to the input slice only through the four documented fields (RawPacket itself, SenderReport/ReceiverReport.ProfileExtensions, ApplicationDefined.Data) - stores, appends, callee summaries and reflect.Value.Set/SetBytes are followed. A positive-control fixture must make every rule fire on every run. Not a race-detector run: nothing is executed.",
   note="Trusted: go/ssa, VTA call graph, the effect model of builtins and of external functions (table in checker/effects). Assumes callers do not mutate a packet concurrently. 'Identical results on repetition' is covered only as absence of writes and of nondeterministic sources.",
   design="DESIGN.md §2 C18"),
  "C11": dict(
